@@ -179,6 +179,7 @@ type nfBuilder struct {
 	info  *types.Info  // nil for reference formulas
 	input types.Object // the closure's input parameter (info != nil)
 	env   aenv         // what the closure's locals are bound to where the expression is evaluated (absint.go)
+	decls helperDecls  // declared functions of the package: calls of pure straight-line helpers are unfolded (robust_c18.go)
 	depth int
 }
 
@@ -242,7 +243,7 @@ func (nb *nfBuilder) build(e ast.Expr) (nfFrac, error) {
 				return nfConst(*l.konst), nil
 			}
 			// the bound expression is normalised under the bindings that were in force at its assignment
-			return (&nfBuilder{info: nb.info, input: nb.input, env: l.env, depth: nb.depth}).build(l.expr)
+			return (&nfBuilder{info: nb.info, input: nb.input, env: l.env, decls: nb.decls, depth: nb.depth}).build(l.expr)
 		}
 		return nfFrac{}, fmt.Errorf("identifier %s is neither the input nor a constant local", x.Name)
 	case *ast.UnaryExpr:
@@ -258,6 +259,11 @@ func (nb *nfBuilder) build(e ast.Expr) (nfFrac, error) {
 		}
 		return nfFrac{}, fmt.Errorf("unary %s", x.Op)
 	case *ast.BinaryExpr:
+		if nb.info != nil {
+			if tv, ok := nb.info.Types[x]; ok && tv.Type != nil && !isFloatType(tv.Type) {
+				return nfFrac{}, fmt.Errorf("non-constant arithmetic of type %s", tv.Type)
+			}
+		}
 		a, err := nb.build(x.X)
 		if err != nil {
 			return a, err
@@ -325,6 +331,16 @@ func (nb *nfBuilder) build(e ast.Expr) (nfFrac, error) {
 				}
 			}
 			return at, nil
+		}
+		if nb.info != nil {
+			if rx, renv, ok := pureHelperCall(nb.info, nb.decls, x, nb.env); ok {
+				for _, arg := range x.Args {
+					if a, err := nb.build(arg); err != nil {
+						return a, err
+					}
+				}
+				return (&nfBuilder{info: nb.info, input: nb.input, env: renv, decls: nb.decls, depth: nb.depth}).build(rx)
+			}
 		}
 		return nfFrac{}, fmt.Errorf("call %s is outside the normal-form table", types.ExprString(x.Fun))
 	}
